@@ -15,7 +15,7 @@ def run(tier, seed):
     r = core.Run("C04", tier, seed, "exploration", RULE)
     exe = core.build_native()
     nsh = 15 if tier == "thorough" else 8
-    cases, sums, notes = core.run_sharded(exe, "c04", seed, tier, min(nsh, core.NCPU), timeout=3000)
+    cases, sums, notes = core.run_sharded(exe, "c04", seed, tier, min(nsh, core.NCPU), timeout=3000, stall=1500 if tier == "thorough" else 120)
     r.add_cases(cases, "native")
     r.notes += notes
     acq = sum(c.get("detail", {}).get("acquisitions", 0) for c in cases)
@@ -50,7 +50,7 @@ def extra_sanitizers(r, seed):
         env = dict(os.environ)
         log = os.path.join(core.BUILD, "runs", "tsan-%d" % os.getpid())
         env["TSAN_OPTIONS"] = "halt_on_error=0 exitcode=66 log_path=%s report_signal_unsafe=0" % log
-        cases, sums, notes = core.run_child_cases(exe, "c04", seed, "quick", 0, 1, extra={"n": 600}, timeout=1800, env=env)
+        cases, sums, notes = core.run_child_cases(exe, "c04", seed, "quick", 0, 1, extra={"n": 600}, timeout=1800, env=env, stall=900)
         reports = 0
         excerpt = ""
         d = os.path.dirname(log)
